@@ -87,6 +87,7 @@ class Scanner:
         self.opaque = set()
         self.in_loop_decls = set()
         self._seen_calls = set()
+        self.range_alias = {}      # reference loop variable of a range-for over a container -> container text
         # aggregate types whose brace-initialised assignment is split into per-field stores
         # (field order is asserted against the class facts by the rules that rely on it)
         self.agg_fields = {"vfps::SourceMap::hi": ["index", "weight"], "hi": ["index", "weight"]}
@@ -242,6 +243,9 @@ class Scanner:
                 return base, tuple(idx), path, n
         if n["k"] == "UnaryOperator" and n["op"] == "*":
             return A.show(A.strip(n["c"][0])).replace(" ", ""), (sp.Integer(0),), path, n
+        if n["k"] == "DeclRefExpr" and n["decl"] in self.range_alias:
+            cont, sym = self.range_alias[n["decl"]]
+            return cont, (sym,), path, n
         return A.show(n).replace(" ", ""), None, path, n
 
     def _loads(self, n, skip=None):
@@ -413,6 +417,8 @@ class Scanner:
             lv = s["loopvar"]
             sym = sp.Symbol(lv["name"], real=True)
             self.tr.bind(lv["decl"], sym)
+            if "&" in (lv.get("type") or "") and "const" not in (lv.get("type") or "") and s.get("range") is not None:
+                self.range_alias[lv["decl"]] = (A.show(A.strip(s["range"])).replace(" ", ""), sym)
             self._loads(s.get("range"))
             self.loops.append(Loop(lv["name"], lv["decl"], sym, None, None, "range", 1, s))
             self.stmt(s.get("body"))
